@@ -185,6 +185,32 @@ CHECKS.update({
     design="6/C14"),
 })
 
+CHECKS.update({
+ "C09": dict(
+    text="Coq theorems over the model of the token wrapper and of every parser production: for every raw token list the "
+         "pipeline yields a statement or an error value - never a panic (the single assertion left, requireInt's, is proved "
+         "unreachable) - and the fuel used for loops is proved sufficient (termination). Correspondence: 913k token "
+         "sequences (full vocabulary to length 3, reduced vocabularies to length 5), every token/byte truncation of "
+         "generated statements, malformed byte streams (unterminated quotes, huge numerals, invalid UTF-8, 100 kB inputs, "
+         "5000-long AND/OR chains) through the real scanner + parser under recover() and a watchdog, cross-checked with "
+         "engine.parseSQL.",
+    note="PARTIAL: the forked text/scanner (sql/go_scanner.go) is a raw-token oracle - its own termination and panic-freedom "
+         "are validated by the malformed-input stream, not proved. No axioms.",
+    technique="Coq proof (totality and fuel sufficiency per production) + exhaustive token-level and text-level correspondence",
+    design="6/C09"),
+ "C10": dict(
+    text="Coq theorems: for every well-formed statement of the whole grammar and every rendering (optional INNER / AS / ASC, "
+         "GROUP BY with commas or blanks, LIMIT/OFFSET order, column lists, numeral spellings) parsing the token list yields "
+         "exactly that statement (C10_roundtrip); no element of a comma separated list is silently lost (C10_lists_complete, "
+         "C10_no_silent_change); keyword recognition is case-insensitive (from the generated keyword table, proved "
+         "upper-case and pairwise distinct); AND binds tighter than OR. Correspondence: generated statement trees rendered "
+         "to text with random case / whitespace / optional keywords, Go's tree compared with the generated tree and with the "
+         "model's parse; all boolean shapes up to 3 leaves.",
+    note="Trusted: Coq kernel + vm_compute; the raw scanner as oracle; keyword table regenerated from scanner.go. No axioms.",
+    technique="Coq proof (round trip per production with follow-set side conditions) + text-level correspondence",
+    design="6/C10"),
+})
+
 NOT_YET = {
 }
 
